@@ -192,11 +192,15 @@ class Program:
                 n0 = len(self.norm_report)
                 if self.unknown_functions:
                     inline.inline_unknown(trees, self.unknown_functions, self.norm_report)
-                unextract.inline_constants(trees, self.norm_report)
-                unextract.unextract_variables(trees, self.norm_report)
-                if len(self.norm_report) > n0:
+                for _round in range(3):
+                    n1 = len(self.norm_report)
+                    unextract.inline_constants(trees, self.norm_report)
+                    unextract.unextract_variables(trees, self.norm_report)
+                    if len(self.norm_report) == n1:
+                        break
                     for t in trees.values():
                         canonicalise(t)
+                if len(self.norm_report) > n0:
                     self.unknown_functions = refnorm.normalise(trees, self.norm_report)
         for m in self.modules.values():
             self._index(m)
